@@ -64,7 +64,8 @@ let rec enum_idx = function
 let total l = List.fold_left (fun a x -> a * int_of_z x) 1 l
 let enumerable shp = List.for_all sane shp && total shp <= 4096
 
-let model_shape shape sls =
+let model_shape variadic shape sls =
+  if variadic && var_oob shape sls then Error "trap out_of_range" else
   let r = shape_slice shape sls in
   if List.exists (fun x -> x = LenUB) r then Error "ub"
   else if List.exists (fun x -> x = LenInexact) r then Error "inexact"
@@ -73,8 +74,8 @@ let model_shape shape sls =
 let show_idx_list f shp =
   if enumerable shp && total shp > 0 then " " ^ String.concat "|" (List.map f (enum_idx shp)) else ""
 
-let mx_model shape sls =
-  match model_shape shape sls with
+let mx_model variadic shape sls =
+  match model_shape variadic shape sls with
   | Error e -> e
   | Ok shp -> "ok " ^ show_list shp ^ " ;" ^ show_idx_list (fun i -> String.concat "," (List.map s64 (slice_index i shape sls))) shp
 let mx_spec shape sls =
@@ -83,8 +84,8 @@ let mx_spec shape sls =
 
 (* view level: the operand is ndarray_t<std::vector,std::vector<size_t>> holding 0,1,2,...; element access is
    data.at( sum_i idx_i * stride_i  mod 2^64 ), refused ("X") when the offset is outside the buffer *)
-let vw_model shape sls =
-  match model_shape shape sls with
+let vw_model variadic shape sls =
+  match model_shape variadic shape sls with
   | Error e -> e
   | Ok shp ->
       let st = compute_strides shape and size = prod shape in
@@ -105,13 +106,6 @@ let rec axes_ok shape sls =
   | _, _ -> false
 let nonell sls = List.filter (fun s -> not (is_ell s)) sls
 let expand shape sls = py_expand (nat_of_int (List.length shape - List.length (nonell sls))) sls
-let rec axes_core shape sls =
-  match shape, sls with
-  | [], [] -> true
-  | n :: s', SInt i :: r -> axes_core s' r
-  | n :: s', SRange (a, b, c) :: r -> slice_core n a b c && opt_int_ok a && opt_int_ok b && opt_int_ok c && zlt n two24 && axes_core s' r
-  | _, _ -> false
-
 let () =
   register "ax" (fun args -> match args with
     | [_; n; a; b; c] ->
@@ -119,17 +113,18 @@ let () =
         let inq = step_ok c && zle z0 n in
         { model = ax_model n a b c;
           spec = if inq then ax_spec n a b c else "unspecified";
-          dom = inq && slice_core n a b c && zlt n two24 && opt_int_ok a && opt_int_ok b && opt_int_ok c }
+          dom = inq && axis_dom n a b c }
     | _ -> failwith "ax");
   let multi fm fs = (fun args -> match args with
-    | _ :: _ :: shape :: parts ->
+    | enc :: _ :: shape :: parts ->
+        let variadic = (getS enc <> "dyn") in
         let shape = getL shape and sls = List.map (fun p -> parse_part (getS p)) parts in
         if not (wf_slices shape sls) then { model = "malformed"; spec = "unspecified"; dom = false }
         else begin
           let ex = expand shape sls in
           let inq = axes_ok shape ex in
-          { model = fm shape sls; spec = if inq then fs shape sls else "unspecified";
-            dom = inq && axes_core shape ex }
+          { model = fm variadic shape sls; spec = if inq then fs shape sls else "unspecified";
+            dom = inq && multi_dom shape sls && not (variadic && var_oob shape sls) }
         end
     | _ -> failwith "multi") in
   register "mx" (multi mx_model mx_spec);
